@@ -1271,11 +1271,13 @@ def part_f(ctx, cov, dist, rng, only=None):
             hit("connect: EADDRINUSE, next lower port")
         if any(e.startswith("s") for e in evs):
             hit("connect: ECONNREFUSED, retry after sleep" + ("" if w[7] == "1" else " (interrupted)"))
-        if sum(1 for e in evs if e.startswith("s")) >= 5:
+        if sum(1 for e in evs if e.startswith("s") and e[1:].isdigit()) >= 5:
             hit("connect: refused until the back-off is used up")
-        binds = [int(e[1:]) for e in evs if e.startswith("b")]
-        conn_ok = [int(e[1:].split(":")[0]) for e in evs if e.startswith("c") and e.endswith(":o")]
-        lis = [int(e[1:]) for e in evs if e.startswith("l")]
+        binds = [int(e[1:]) for e in evs if e.startswith("b") and e[1:].isdigit()]
+        conn_ok = [int(e[1:].split(":")[0]) for e in evs if e.startswith("c") and e.endswith(":o") and e[1:].split(":")[0].isdigit()]
+        lis = [int(e[1:]) for e in evs if e.startswith("l") and e[1:].isdigit()]
+        if any(e.startswith("leak") for e in evs):
+            hit("a socket left open on return (leak)")
         if conn_ok and lis and lis[0] != conn_ok[0] - 1:
             hit("stderr port not directly below the primary port")
         if not binds:
